@@ -1,7 +1,7 @@
 """C01 — a script issues exactly the commands, waits and output its source says.
 
 Shape E: every program of three bounded slices (K control skeletons,
-V commands and values over four populations, X commands inside control) is
+V commands and values over four populations, X commands inside control, R routines that return out of nested loops, called from light loops and expressions) is
 rendered, compiled by the real parser, loaded and run on the real VM over the
 simulated LAN with a recording clock, and its event trace is compared with the
 reference interpreter's (lang/ref.py).
@@ -11,7 +11,7 @@ import itertools
 
 from .. import par, simnet, world
 from ..cli import Report
-from ..lang import gen_k, gen_v, gen_x, harness, render
+from ..lang import gen_k, gen_loops, gen_v, gen_x, harness, render
 
 POPS = {'empty': world.POP_EMPTY, 'one': world.POP_ONE,
         'three': world.POP_THREE, 'mixed': world.POP_MIXED}
@@ -46,6 +46,8 @@ def _slice_worker(rank, n, slice_name, size, popname):
         gen = gen_k.programs(size)
     elif slice_name == 'V':
         gen = gen_v.programs(size, POPS[popname])
+    elif slice_name == 'R':
+        gen = ((0, p) for tag, p in gen_loops.returns_from_nested(POPS[popname]))
     else:
         gen = gen_x.programs(size, POPS[popname])
     st = dict(programs=0, ok=0, undefined=0, refcap=0, steps=0, events=0,
@@ -78,10 +80,11 @@ def run(tier, seed):
     rep = Report()
     if tier == 'quick':
         plan = [('K', 6, 'one'), ('V', 3, 'three'), ('V', 2, 'empty'), ('V', 2, 'one'),
-                ('V', 2, 'mixed'), ('X', 3, 'three'), ('X', 3, 'mixed')]
+                ('V', 2, 'mixed'), ('X', 3, 'three'), ('X', 3, 'mixed'), ('R', 0, 'three')]
     else:
         plan = [('K', 7, 'one'), ('V', 3, 'three'), ('V', 3, 'empty'), ('V', 3, 'one'),
-                ('V', 3, 'mixed'), ('X', 4, 'three'), ('X', 4, 'mixed'), ('X', 3, 'one'), ('X', 3, 'empty')]
+                ('V', 3, 'mixed'), ('X', 4, 'three'), ('X', 4, 'mixed'), ('X', 3, 'one'), ('X', 3, 'empty'),
+                ('R', 0, 'three'), ('R', 0, 'one')]
     tot = dict(programs=0, ok=0, undefined=0, refcap=0, steps=0, events=0)
     traces = set()
     samples = []
